@@ -1,0 +1,20 @@
+// SPDX-License-Identifier:Apache-2.0
+
+//go:build verif
+
+package native
+
+// verifHook, when set by a verification harness (build tag verif), is called
+// at the instrumented points of the session state machine. The caller holds
+// s.mu at the points "set", "fold", "full.sent:<prefix>", "wait.enter",
+// "wait.woke", "diff.begin", "diff.sent:<prefix>", "diff.withdrawn", "diff.done",
+// "connected", "abort", "close" and "reader.stale"; it does not hold it at
+// "gate.connect", "gate.sendUpdates", "gate.reader", "reader.start",
+// "connect.failed" and "run.exit".
+var verifHook func(point string, s *session)
+
+func verifPoint(p string, s *session) {
+	if verifHook != nil {
+		verifHook(p, s)
+	}
+}
